@@ -74,7 +74,8 @@ def build(repo, findings, inv='distinct'):
         C('C17 wait-reports-only-finished-jobs', 'res is Ok ==> forall|k: int| 0 <= k < res->Ok_0@.len() ==> (#[trigger] res->Ok_0@[k]).tasks@.len() == 0'),
         C('C17 wait-keeps-ids-distinct', 'res is Ok ==> (table_inv(old(self).jobs@) ==> table_inv(final(self).jobs@))'),
     ])
-    im.loop(0, fn_name=fn, invariant=[
+    if '__nw' in im.text:       # R16 applied (the loop is `for job in &mut self.jobs`)
+      im.loop(0, fn_name=fn, invariant=[
         C('aux', '__nw <= self.jobs@.len()'),
         C('aux', 'same_ids(self.jobs@, old(self).jobs@)'),
         C('C17 every-job-so-far-awaited', 'forall|i: int| 0 <= i < __nw ==> awaited(#[trigger] self.jobs@[i])'),
